@@ -78,13 +78,47 @@ theorem cr_reference_read_back :
     (match XmlSpec.charData [97, 38, 35, 49, 51, 59, 98] with | .ok s => s == [97, 13, 98] | _ => false) = true := by
   decide
 
-/-- F-xml-9 (`xml-eol-not-normalised`): a literal CR LF in character data denotes one LF (XML 1.0 §2.11) … -/
+/-- `<Key>a CR LF b</Key>` (the witness `w-eol`, inside `<Tag>` there) -/
+def docEol : Bytes := [60, 75, 101, 121, 62, 97, 13, 10, 98, 60, 47, 75, 101, 121, 62]
+
+/-- F-xml-9 (`xml-eol-not-normalised`, FIXED by eab498c): a literal CR LF in character data denotes one LF
+(XML 1.0 §2.11) … -/
 theorem eol_meaning : (match XmlSpec.charData [97, 13, 10, 98] with | .ok s => s == [97, 10, 98] | _ => false) = true := by
   decide
 
-/-- … the deserialiser hands `a CR LF b` to the backend -/
-theorem eol_not_normalised : (match decodeStr [97, 13, 10, 98] with | .ok s => s == [97, 13, 10, 98] | _ => false) = true := by
+/-- … the string parser alone still keeps what it is given (`a CR LF b`; before the repair that was the raw text) … -/
+theorem eol_decodeStr_verbatim : (match decodeStr [97, 13, 10, 98] with | .ok s => s == [97, 13, 10, 98] | _ => false) = true := by
   decide
+
+/-- … since the repair `Deserializer::text` normalises the raw text first: the document is read as `a LF b`
+(before: `a CR LF b`) … -/
+theorem eol_normalised :
+    strOf (decodeDoc X0 (.named key) .str (deEvents (tokenize docEol))) = some [97, 10, 98] := by decide
+
+/-- … a lone CR is a line end too, also at the end of a piece in front of markup and inside a CDATA section:
+`<Key>a CR<!-- c -->LF b<![CDATA[CR LF CR]]></Key>` is `a LF LF b LF LF` … -/
+theorem eol_pieces :
+    strOf (decodeDoc X0 (.named key) .str (deEvents (tokenize
+      ([60, 75, 101, 121, 62, 97, 13] ++ [60, 33, 45, 45, 32, 99, 32, 45, 45, 62] ++ [10, 98] ++
+       [60, 33, 91, 67, 68, 65, 84, 65, 91, 13, 10, 13, 93, 93, 62] ++ [60, 47, 75, 101, 121, 62]))))
+      = some [97, 10, 10, 98, 10, 10] := by decide
+
+/-- … while a CR written as a reference stays a CR: `<Key>a&#13;&#10;b</Key>` is `a CR LF b` … -/
+theorem eol_reference_kept :
+    strOf (decodeDoc X0 (.named key) .str (deEvents (tokenize
+      ([60, 75, 101, 121, 62, 97, 38, 35, 49, 51, 59, 38, 35, 49, 48, 59, 98] ++ [60, 47, 75, 101, 121, 62]))))
+      = some [97, 13, 10, 98] := by decide
+
+/-- … so the string `a CR LF b` survives the round trip through bytes -/
+theorem eol_roundtrip :
+    strOf (decodeDoc X0 (.named key) .str (deEvents (tokenize
+      (write (encodeDoc (.named key none) .str (.str [97, 13, 10, 98])))))) = some [97, 13, 10, 98] := by decide
+
+/-- the independent tree-level spec reads `a LF b` from the witness -/
+theorem eol_spec :
+    (match XmlSpec.parse docEol with
+     | .ok (.elem n _ [.chars s]) => n == key && s == [97, 10, 98]
+     | _ => false) = true := by decide
 
 /-- `junk<Key>k</Key>junk` -/
 def docJunk : Bytes :=
